@@ -260,10 +260,10 @@ def related_regexps(rng, syms):
 # multi-character variable names (legal: a Variable is any string): prefixes of each other, concatenations of
 # each other, digits / underscores / primes as the library's own fresh names have them
 VAR_NAME_POOLS = [
-    {"S": "S", "A": "A", "B": "AB", "C": "B", "D": "BB"},
-    {"S": "S0", "A": "S", "B": "S00", "C": "0S", "D": "S_0"},
-    {"S": "X1", "A": "X11", "B": "X", "C": "1X", "D": "X1X"},
-    {"S": "A'", "A": "A", "B": "A''", "C": "AA", "D": "AA'"},
+    {"S": "S", "A": "A", "B": "AB", "C": "BA", "D": "B"},          # [A,BA] and [AB,A] both spell ABA
+    {"S": "S0", "A": "S", "B": "S00", "C": "0S", "D": "S_0"},       # [S,0S] and [S0,S] both spell S0S
+    {"S": "X1", "A": "X11", "B": "X", "C": "1X", "D": "X1X"},       # [X1,1X] and [X11,X] both spell X11X
+    {"S": "A'", "A": "A", "B": "'A", "C": "A''", "D": "AA"},        # [A','A] and [A'',A] both spell A''A
 ]
 
 
